@@ -22,8 +22,8 @@ Inductive cop :=
 | ONew                                              (* req.C() *)
 | OSet (c : cid) (ps : list policy)                 (* c.SetRedirectPolicy(ps...) *)
 | OClone (c : cid)                                  (* c.Clone() - the new client gets the next id *)
-| ODo (c : cid) (init : bytes) (targets : list bytes). (* a request through c; the servers answer
-                                                       with the scripted Location authorities *)
+| ODo (c : cid) (init : bytes) (hs : hdrs) (targets : list bytes). (* a request through c with the
+                 caller's headers hs; the servers answer with the scripted Location authorities *)
 
 Definition world := list (list policy).
 
@@ -49,9 +49,9 @@ Definition cstep (w : world) (o : cop) : world * option outcome :=
       | Some cfg => (w ++ [cfg], None)
       | None => (w, None)
       end
-  | ODo c init targets =>
+  | ODo c init hs targets =>
       match nth_error w c with
-      | Some cfg => (w, Some (run_chain cfg init targets))
+      | Some cfg => (w, Some (run_chain cfg init hs targets))
       | None => (w, None)
       end
   end.
@@ -73,7 +73,7 @@ Fixpoint crun_of (c : cid) (w : world) (ops : list cop) : list outcome :=
   | o :: r =>
       let '(w', oc) := cstep w o in
       match o, oc with
-      | ODo d _ _, Some x => if Nat.eqb d c then x :: crun_of c w' r else crun_of c w' r
+      | ODo d _ _ _, Some x => if Nat.eqb d c then x :: crun_of c w' r else crun_of c w' r
       | _, _ => crun_of c w' r
       end
   end.
@@ -83,7 +83,7 @@ Fixpoint crun_of (c : cid) (w : world) (ops : list cop) : list outcome :=
 Definition erase1 (c : cid) (o : cop) : cop :=
   match o with
   | OSet d ps => if Nat.eqb d c then o else OSet d []
-  | ODo d _ _ => if Nat.eqb d c then o else OSet d []
+  | ODo d _ _ _ => if Nat.eqb d c then o else OSet d []
   | _ => o
   end.
 
@@ -111,9 +111,9 @@ Definition cstep_mv (w : world_mv) (o : cop) : world_mv * option outcome :=
       | Some b, Some f => ((bind ++ [b], fields ++ [f]), None)
       | _, _ => (w, None)
       end
-  | ODo c init targets =>
+  | ODo c init hs targets =>
       match nth_error bind c with
-      | Some b => (w, Some (run_chain (nth b fields []) init targets))
+      | Some b => (w, Some (run_chain (nth b fields []) init hs targets))
       | None => (w, None)
       end
   end.
@@ -132,6 +132,7 @@ Inductive cstatus := Running | Ended (e : chain_end).
 
 Record chain_st := {
   k_init : bytes;
+  k_hdrs : hdrs;               (* the caller's headers on the first request *)
   k_via : list bytes;          (* URL.Host of every request of this chain so far, oldest first *)
   k_strip : bool;              (* net/http's sticky stripSensitiveHeaders of this chain *)
   k_todo : list bytes;         (* Location authorities still to come *)
@@ -139,9 +140,9 @@ Record chain_st := {
   k_status : cstatus
 }.
 
-Definition chain_start (init : bytes) (targets : list bytes) : chain_st :=
-  {| k_init := init; k_via := [init]; k_strip := false; k_todo := targets;
-     k_sent := [{| s_host := init; s_auth := 1; s_cookie := 1 |}]; k_status := Running |}.
+Definition chain_start (init : bytes) (hs : hdrs) (targets : list bytes) : chain_st :=
+  {| k_init := init; k_hdrs := hs; k_via := [init]; k_strip := false; k_todo := targets;
+     k_sent := [{| s_host := init; s_hdrs := hs |}]; k_status := Running |}.
 
 (* one response of this chain is delivered to the client: it is final, or CheckRedirect runs
    and the next request is sent or refused *)
@@ -150,20 +151,18 @@ Definition hop (ps : list policy) (k : chain_st) : chain_st :=
   | Ended _ => k
   | Running =>
       match k_todo k with
-      | [] => {| k_init := k_init k; k_via := k_via k; k_strip := k_strip k; k_todo := [];
+      | [] => {| k_init := k_init k; k_hdrs := k_hdrs k; k_via := k_via k; k_strip := k_strip k; k_todo := [];
                  k_sent := k_sent k; k_status := Ended Completed |}
       | t :: rest =>
           let strip' := k_strip k ||
                         (negb (bytes_eqb (k_init k) t) && negb (should_copy (k_init k) t)) in
           if all_permit ps t (k_via k) then
-            {| k_init := k_init k; k_via := k_via k ++ [t]; k_strip := strip'; k_todo := rest;
+            {| k_init := k_init k; k_hdrs := k_hdrs k; k_via := k_via k ++ [t]; k_strip := strip'; k_todo := rest;
                k_sent := k_sent k ++
-                         [{| s_host := t;
-                             s_auth := b2n (negb strip' || copies_auth ps);
-                             s_cookie := b2n (negb strip' || copies_cookie ps) |}];
+                         [{| s_host := t; s_hdrs := carry ps strip' (k_hdrs k) |}];
                k_status := Running |}
           else
-            {| k_init := k_init k; k_via := k_via k; k_strip := k_strip k; k_todo := t :: rest;
+            {| k_init := k_init k; k_hdrs := k_hdrs k; k_via := k_via k; k_strip := k_strip k; k_todo := t :: rest;
                k_sent := k_sent k; k_status := Ended Refused |}
       end
   end.
